@@ -473,7 +473,8 @@ class VtsHarness:
                 node = self.loader.find(f, c)
                 for q, n in all_functions(node, c):
                     self.functions[f"{f}::{q}"] = self.loader.sha(f, q)
-            for m in ("start", "advance_to", "advance_by", "sleep", "stop", "schedule", "schedule_relative", "schedule_absolute"):
+            for m in (() if getattr(self, "queue_only", False) else
+                      ("start", "advance_to", "advance_by", "sleep", "stop", "schedule", "schedule_relative", "schedule_absolute")):
                 for p in explore(lambda ctx, _m=m: self.run_method(ctx, _m)):
                     self.results.extend(p.results)
             for p in explore(self.run_item):
@@ -490,6 +491,15 @@ class VtsHarness:
 
 
 def run_unit(desc):
+    if desc.get("mode") == "queue":
+        # the queue contracts alone (callee contracts of the trampoline and of the event-loop schedulers): PriorityQueue hands
+        # back entries in (due time, insertion count) order, ScheduledItem compares by due time and cancels through its disposable
+        h = VtsHarness()
+        h.queue_only = True
+        h.run()
+        fn = {k: v for k, v in h.functions.items() if VFILE not in k}
+        return {"unit": f"{QFILE}::PriorityQueue+ScheduledItem", "kind": "function contracts of the scheduler queue (against the assumed heapq contract)",
+                "functions": fn, "results": [r.as_dict() for r in h.results], "unsupported": h.unsupported, "spec_validation": [], "bounded": []}
     h = VtsHarness().run()
     prop = desc["prop"]
     res = [r.as_dict() for r in h.results]
